@@ -1642,7 +1642,6 @@ func ruleF9(c *Ctx) *RuleResult {
 	return r
 }
 
-
 // isLeadingConvCall: call is a method call whose receiver is the client's leading time converter — a value that
 // comes (through type assertions and small accessor functions) from the field Client.leadingTimeConv — and that
 // returns a timestamp.
